@@ -386,8 +386,10 @@ def damage(rnd, text):
         return {"how": "random", "bytes": "".join(chr(rnd.randrange(256)) for _ in range(rnd.randint(1, 200)))}
     if k < 0.9:
         return {"how": "empty"}
-    if k < 0.95:
+    if k < 0.94:
         return {"how": "missing"}
+    if k < 0.97:
+        return {"how": "isdir"}         # the path names a directory: it opens, reading fails
     return {"how": "eio"}
 
 
@@ -550,11 +552,13 @@ class ConfProfile:
                         for cut in cuts:
                             dd = dict(d, cut=cut) if cut is not None else d
                             data = apply_damage(dd, d["base"])
-                            if d["how"] == "missing":
+                            if d["how"] in ("missing", "isdir"):
                                 try:
                                     os.unlink(conf)
                                 except OSError:
                                     pass
+                                if d["how"] == "isdir":
+                                    os.mkdir(conf)
                             else:
                                 with open(conf, "wb") as f:
                                     f.write(data)
@@ -562,6 +566,8 @@ class ConfProfile:
                             if d["how"] == "eio":
                                 h.freadfault()
                             rep = h.sig("USR1")
+                            if d["how"] == "isdir":
+                                os.rmdir(conf)
                             res.extra["damaged_loads"] += 1
                             rcs = [int(n.split()[1]) for n in rep.notes if n.startswith("CONFREAD")]
                             res.transcript.append(("damaged-load", {k: v for k, v in dd.items() if k != "base"}, rep.notes))
